@@ -38,6 +38,8 @@ func VH_C08_Alias() {
 	switch op {
 	case bscript.OpBIN2NUM, bscript.OpNUM2BIN, bscript.OpSPLIT, bscript.OpCAT, bscript.OpINVERT, bscript.OpSIZE, bscript.OpLSHIFT, bscript.OpRSHIFT:
 		k = vparam("KB", k) // byte-string transformers: longer items (zero-padded / sign-carrying encodings need >= 3 bytes)
+	case bscript.OpRIPEMD160, bscript.OpSHA1, bscript.OpSHA256, bscript.OpHASH160, bscript.OpHASH256:
+		k = 32 // room for a digest: a hasher that appends into its operand's storage would overwrite the twin
 	}
 	flags := vflags()
 	th := &thread{flags: flags, cfg: &beforeGenesisConfig{}, elseStack: &nopBoolStack{}, debug: &nopDebugger{}, state: &nopStateHandler{}}
